@@ -210,8 +210,15 @@ func (pConn *PFCPConn) handleSessionModificationRequest(msg message.Message) (me
 
 	var remoteSEID uint64
 
+	// TEIDs chosen for PDRs that this request creates; given back if it is rejected.
+	var chosenTEIDs []uint32
+
 	sendError := func(err error) (message.Message, error) {
 		logger.PfcpLog.Errorln(err)
+
+		for _, teid := range chosenTEIDs {
+			upf.fteidGenerator.FreeID(teid)
+		}
 
 		smres := message.NewSessionModificationResponse(0, /* MO?? <-- what's this */
 			0,                                    /* FO <-- what's this? */
@@ -266,12 +273,29 @@ func (pConn *PFCPConn) handleSessionModificationRequest(msg message.Message) (me
 			return sendError(err)
 		}
 
+		if p.UPAllocateFteid {
+			// F-TEID with the CHOOSE flag: choose one, as at establishment. Without this the
+			// PDR was installed with TEID 0 and the control plane never learnt a TEID.
+			fteid, err := upf.fteidGenerator.Allocate()
+			if err != nil {
+				return sendError(err)
+			}
+
+			chosenTEIDs = append(chosenTEIDs, fteid)
+			p.tunnelTEID = fteid
+			p.tunnelTEIDMask = 0xFFFFFFFF
+			p.tunnelIP4Dst = ip2int(upf.accessIP)
+			p.tunnelIP4DstMask = 0xFFFFFFFF
+		}
+
 		p.fseidIP = fseidIP
 
 		session.CreatePDR(p)
 		addPDRs = append(addPDRs, p)
 	}
 	logger.PfcpLog.Debugln("PDRs added:", addPDRs)
+
+	createdPDRs := addPDRs[:len(addPDRs):len(addPDRs)]
 
 	for _, cFAR := range smreq.CreateFAR {
 		var f far
@@ -461,6 +485,16 @@ func (pConn *PFCPConn) handleSessionModificationRequest(msg message.Message) (me
 		0,                                    /* priority */
 		ie.NewCause(ie.CauseRequestAccepted), /* accept it blindly for the time being */
 	)
+
+	for _, p := range createdPDRs {
+		if p.UPAllocateFteid {
+			smres.CreatedPDR = append(smres.CreatedPDR,
+				ie.NewCreatedPDR(
+					ie.NewPDRID(uint16(p.pdrID)),
+					ie.NewFTEID(0x01, p.tunnelTEID, int2ip(p.tunnelIP4Dst), nil, 0),
+				))
+		}
+	}
 
 	return smres, nil
 }
